@@ -167,6 +167,7 @@ class Ref:
         self.variant = cfg['variant']
         self.og = cfg['og']  # index of the outside good or None
         self.scale = values['scale'] if cfg['scale'] else None
+        self.active = tuple(cfg.get('goods', (0, 1, 2)))   # goods of the model (part g: 1 or 2 goods only)
         self.V, self.gamma, self.alpha, self.price, self.mu = [], [], [], [], []
         for k, g in enumerate(GOODS):
             self.V.append(self._lin(V_SPEC[g], values, row))
@@ -264,6 +265,9 @@ class Ref:
     def demand(self, lam, eps):
         xs = []
         for k in range(3):
+            if k not in self.active:
+                xs.append(0.0)
+                continue
             if lam <= self.dual_floor(k, eps[k]):
                 xs.append(math.inf)
                 continue
@@ -273,8 +277,8 @@ class Ref:
 
     def solve(self, budget, eps):
         """Unique optimum of max sum U_k(x_k) s.t. sum x = budget, x >= 0 (outside good > 0): (x, lambda)."""
-        floor = max(self.dual_floor(k, eps[k]) for k in range(3))
-        w = [self.MU(k, 0.0, eps[k]) for k in range(3)]
+        floor = max(self.dual_floor(k, eps[k]) for k in self.active)
+        w = [self.MU(k, 0.0, eps[k]) for k in self.active]
         finite = [v for v in w if math.isfinite(v)]
         hi = max(finite + [floor + 1.0])
         n = 0
@@ -302,7 +306,7 @@ class Ref:
         return self.demand(lam, eps), lam
 
     def objective(self, xs, eps):
-        return sum(self.U(k, xs[k], eps[k]) for k in range(3))
+        return sum(self.U(k, xs[k], eps[k]) for k in self.active)
 
 
 # --------------------------------------------------------------------------- labelings
@@ -356,7 +360,8 @@ def configs(tier):
 
 def cfg_name(cfg):
     return (cfg['variant'] + ('+prices' if cfg['prices'] else '') + ('+scale' if cfg['scale'] else '')
-            + '|og=' + ('none' if cfg['og'] is None else GOODS[cfg['og']]))
+            + '|og=' + ('none' if cfg['og'] is None else GOODS[cfg['og']])
+            + ('|goods=' + ''.join(GOODS[k] for k in cfg['goods']) if 'goods' in cfg else ''))
 
 
 # --------------------------------------------------------------------------- real objects
@@ -401,18 +406,23 @@ def build_model(cfg, lab, defaults, bounded=False, weights=False):
 
     labels = lab['labels']
     order = lab['order']
-    baseline = {labels[k]: lin(V_SPEC[GOODS[k]]) for k in dict_order(order, 'baseline')}
-    gamma = {labels[k]: (None if cfg['og'] == k else beta('g_' + GOODS[k].lower())) for k in dict_order(order, 'gamma')}
-    alpha = {labels[k]: beta('al_' + GOODS[k].lower()) for k in dict_order(order, 'alpha')}
+    active = tuple(cfg.get('goods', (0, 1, 2)))
+
+    def dorder(order, which):   # the goods of the model, in the order of the labeling
+        return tuple(k for k in dict_order(order, which) if k in active)
+
+    baseline = {labels[k]: lin(V_SPEC[GOODS[k]]) for k in dorder(order, 'baseline')}
+    gamma = {labels[k]: (None if cfg['og'] == k else beta('g_' + GOODS[k].lower())) for k in dorder(order, 'gamma')}
+    alpha = {labels[k]: beta('al_' + GOODS[k].lower()) for k in dorder(order, 'alpha')}
     kw = dict(model_name='m18', baseline_utilities=baseline, gamma_parameters=gamma)
     if HAS_ALPHA[cfg['variant']]:
         kw['alpha_parameters'] = alpha
     if cfg['scale']:
         kw['scale_parameter'] = beta('scale')
     if cfg['prices']:
-        kw['prices'] = {labels[k]: beta('p_' + GOODS[k].lower()) for k in dict_order(order, 'prices')}
+        kw['prices'] = {labels[k]: beta('p_' + GOODS[k].lower()) for k in dorder(order, 'prices')}
     if cfg['variant'] == 'nonmono':
-        kw['mu_utilities'] = {labels[k]: lin(MU_SPEC[GOODS[k]]) for k in dict_order(order, 'mu')}
+        kw['mu_utilities'] = {labels[k]: lin(MU_SPEC[GOODS[k]]) for k in dorder(order, 'mu')}
     if weights:
         kw['weights'] = Variable('w')
     cls = dict(gamma=GammaProfile, translated=Translated, generalized=Generalized, nonmono=NonMonotonic)[cfg['variant']]
@@ -482,16 +492,16 @@ def check_forecast(ref, budget, eps, xs, xref, lamref):
     if bad:
         return bad
     # KKT with the reference marginal utilities at the library's point
-    consumed = [k for k in range(3) if xs[k] > ZERO * scale]
+    consumed = [k for k in ref.active if xs[k] > ZERO * scale]
     mus = {k: ref.MU(k, xs[k], eps[k]) for k in consumed}
     if consumed:
         lam = sum(mus.values()) / len(mus)
-        w0 = [ref.MU(k, 0.0, eps[k]) for k in range(3) if ref.og != k]
+        w0 = [ref.MU(k, 0.0, eps[k]) for k in ref.active if ref.og != k]
         mag = max([abs(lam)] + [abs(v) for v in mus.values()] + [abs(v) for v in w0 if math.isfinite(v)])
         tol = MU_REL * mag
         if any(abs(v - lam) > tol for v in mus.values()):
             bad.append(('marginal-utilities-of-consumed-goods-differ', f'x={xs} MU={mus}'))
-        for k in range(3):
+        for k in ref.active:
             if k not in consumed and ref.og != k:
                 if ref.MU(k, 0.0, eps[k]) > lam + 10 * tol:
                     bad.append(('unconsumed-good-has-larger-marginal-utility',
@@ -516,8 +526,9 @@ def run_one_forecast(model, cfg, lab, row_db, budget, eps, tol=None):
     import numpy as np
 
     labels = lab['labels']
-    vec = np.zeros(3)
-    for k in range(3):
+    active = tuple(cfg.get('goods', (0, 1, 2)))
+    vec = np.zeros(len(active))
+    for k in active:
         vec[model.key_to_index[labels[k]]] = eps[k]
     try:
         if tol is None:
@@ -529,17 +540,17 @@ def run_one_forecast(model, cfg, lab, row_db, budget, eps, tol=None):
                                                     **tol_kwargs(tol[0], tol[1]))
     except Exception as e:  # noqa: BLE001 - every exception on an in-domain problem is an observation
         return ('raised', type(e).__name__, str(e)[:200])
-    if set(res) != set(labels):
-        return ('raised', 'wrong-keys', f'keys {sorted(res)} labels {sorted(labels)}')
-    return [float(res[labels[k]]) for k in range(3)]
+    if set(res) != {labels[k] for k in active}:
+        return ('raised', 'wrong-keys', f'keys {sorted(res)} labels {sorted(labels[k] for k in active)}')
+    return [float(res[labels[k]]) if k in active else 0.0 for k in range(3)]
 
 
-def run_bruteforce(model, lab, row_db, budget, eps):
+def run_bruteforce(model, lab, row_db, budget, eps, active=(0, 1, 2)):
     import numpy as np
 
     labels = lab['labels']
-    vec = np.zeros(3)
-    for k in range(3):
+    vec = np.zeros(len(active))
+    for k in active:
         vec[model.key_to_index[labels[k]]] = eps[k]
     try:
         res = model.forecast_bruteforce_one_draw(one_row_database=row_db, total_budget=budget, epsilon=vec)
@@ -547,7 +558,7 @@ def run_bruteforce(model, lab, row_db, budget, eps):
         return ('raised', type(e).__name__, str(e)[:200])
     if res is None:
         return None
-    return [float(res[labels[k]]) for k in range(3)]
+    return [float(res[labels[k]]) if k in active else 0.0 for k in range(3)]
 
 
 BF_BUDGET_TOL = 1e-6   # relative; SLSQP's accuracy (measured on the unchanged library: <= 5e-12)
@@ -1065,16 +1076,16 @@ def check_forecast_tol(ref, budget, eps, xs, xref, lamref, td, tb):
                     f'x={xs} sum x={sum(xs)!r} budget={budget} (gap {gap:.3g}); optimum {xref} at multiplier {lamref!r}; '
                     f'demands at multiplier+tolerance_dual {lo}, at multiplier-tolerance_dual {hi}'))
     # KKT with the reference marginal utilities at the library's point
-    consumed = [k for k in range(3) if xs[k] > ZERO * scale]
+    consumed = [k for k in ref.active if xs[k] > ZERO * scale]
     mus = {k: ref.MU(k, xs[k], eps[k]) for k in consumed}
     if consumed:
         lam = sum(mus.values()) / len(mus)
-        w0 = [ref.MU(k, 0.0, eps[k]) for k in range(3) if ref.og != k]
+        w0 = [ref.MU(k, 0.0, eps[k]) for k in ref.active if ref.og != k]
         mag = max([abs(lam)] + [abs(v) for v in mus.values()] + [abs(v) for v in w0 if math.isfinite(v)])
         tol = MU_REL * mag
         if any(abs(v - lam) > tol for v in mus.values()):
             bad.append(('marginal-utilities-of-consumed-goods-differ', f'x={xs} MU={mus}'))
-        for k in range(3):
+        for k in ref.active:
             if k not in consumed and ref.og != k:
                 # the multiplier of the answer may be below the optimal one by what was requested
                 if ref.MU(k, 0.0, eps[k]) > max(lam, lamref) + 10 * tol:
